@@ -13,6 +13,7 @@ import (
 	"math/big"
 	"net"
 	"regexp"
+	"strconv"
 	"strings"
 	"sync"
 	"time"
@@ -791,6 +792,11 @@ func extraCommand(cmd string, args []string) bool {
 		return true
 	case "rpcstress":
 		runRPCStress(args)
+		return true
+	case "rpcwide":
+		// vipsim rpcwide <depth> seed callers calls transport lazy trace status
+		wideDepth, _ = strconv.Atoi(args[0])
+		runRPCStress(args[1:])
 		return true
 	case "agenttable":
 		runAgentTable(args)
